@@ -289,8 +289,11 @@ func Payload(r *run.Rng, g geom.Geometry, ct geom.CoordinatesType) geom.Geometry
 	n := 0
 	val := func() float64 {
 		n++
-		if r.Chance(1, 4) {
+		switch r.Intn(8) {
+		case 0, 1:
 			return float64(r.Range(-3, 3))
+		case 2: // far outside the XY extent of any workload
+			return float64(r.Range(-2, 2)) * (1e6 + float64(n))
 		}
 		return float64(n*7) + 0.5
 	}
